@@ -74,8 +74,8 @@ impl Property for C12 {
     }
     fn cases(&self, tier: Tier) -> u64 {
         match tier {
-            Tier::Quick => 300000,
-            Tier::Thorough => 5000000,
+            Tier::Quick => 1_500_000,
+            Tier::Thorough => 20_000_000,
         }
     }
     fn decode(&mut self, tape: &TapeVal) -> Case {
